@@ -116,7 +116,7 @@ theorem gate (cap tmo : Nat) (ops : List Op) (hr : (Svc.init cap tmo).Respects o
   have hc := g.count_eq
   rw [hcap] at hle
   refine ⟨by omega, ?_⟩
-  simp only [Svc.pollReady, ucAvail_fst, hcap, decide_eq_false_iff_not]
+  simp only [Svc.pollReady, Svc.pollReadyW, ucAvail_fst, hcap, decide_eq_false_iff_not]
   omega
 
 /-- without the contract: `Pending` exactly while at least `max` handshakes are in progress -/
@@ -127,7 +127,7 @@ theorem gate_general (cap tmo : Nat) (ops : List Op) :
   have g : Good s := good_run _ (good_init cap tmo) ops
   have hcap : s.cap = cap := run_cap _ ops
   have hc := g.count_eq
-  simp only [Svc.pollReady, ucAvail_fst, hcap, decide_eq_false_iff_not]
+  simp only [Svc.pollReady, Svc.pollReadyW, ucAvail_fst, hcap, decide_eq_false_iff_not]
   omega
 
 /-- No lost wake-up.  After any history: a `Pending` answer leaves the caller's waker registered; while
@@ -144,7 +144,7 @@ theorem gate_wakes (cap tmo : Nat) (ops : List Op) :
   have hcap : s.cap = cap := run_cap _ ops
   have hc := g.count_eq
   refine ⟨?_, ?_, ?_⟩
-  · simp only [Svc.pollReady, ucAvail_fst, ucAvail_snd, decide_eq_false_iff_not]
+  · simp only [Svc.pollReady, Svc.pollReadyW, ucAvail_fst, ucAvail_snd, decide_eq_false_iff_not]
     intro h; simp [h]
   · intro hr; have := g.parked hr; omega
   · intro k d hr hk hlt
@@ -156,8 +156,63 @@ theorem gate_wakes (cap tmo : Nat) (ops : List Op) :
     · simp [Svc.endK, Svc.release, ucDec_snd, heq, hr]
     · have hc' := g'.count_eq
       have hcap' : (s.endK k).cap = cap := by simp [Svc.endK, release_cap, hcap]
-      simp only [Svc.pollReady, ucAvail_fst, hcap', decide_eq_true_eq]
+      simp only [Svc.pollReady, Svc.pollReadyW, ucAvail_fst, hcap', decide_eq_true_eq]
       omega
+
+/-- Several tasks may ask the services of one thread for readiness (distinct wakers).  The counter's
+`LocalWaker` holds the waker of the task most recently answered `Pending` (`register` replaces the
+stored one; a `Ready` answer stores nothing), and the release that re-opens the gate wakes exactly that
+task: every other task's wake flag is left as it was. -/
+theorem gate_wakes_latest (cap tmo : Nat) (ops : List Op) :
+    let s := (Svc.init cap tmo).run ops
+    (∀ w, (s.pollReadyW w).2 = false → (s.pollReadyW w).1.registered = true ∧ (s.pollReadyW w).1.regW = w) ∧
+    (∀ w, (s.pollReadyW w).2 = true → (s.pollReadyW w).1.regW = s.regW) ∧
+    (∀ k d, s.registered = true → s.futs k = .alive d → (s.endK k).inProgress < cap →
+        (s.endK k).wokenW s.regW = true ∧ ∀ w, w ≠ s.regW → (s.endK k).wokenW w = s.wokenW w) := by
+  intro s
+  have g : Good s := good_run _ (good_init cap tmo) ops
+  have hcap : s.cap = cap := run_cap _ ops
+  refine ⟨?_, ?_, ?_⟩
+  · intro w h
+    simp only [Svc.pollReadyW, ucAvail_fst, ucAvail_snd, decide_eq_false_iff_not] at h ⊢
+    simp [h]
+  · intro w h
+    simp only [Svc.pollReadyW, ucAvail_fst, decide_eq_true_eq] at h ⊢
+    simp [h]
+  · intro k d hr hk hlt
+    have hip := endK_inProgress s g k d hk
+    have hp := g.parked hr
+    have hc := g.count_eq
+    have heq : s.count = s.cap := by omega
+    constructor
+    · simp [Svc.endK, Svc.release, ucDec_snd, heq, hr]
+    · intro w hw
+      simp [Svc.endK, Svc.release, ucDec_snd, heq, hr, upd_other _ _ _ _ hw]
+
+/-- Task `a` is answered `Pending`, then task `b` is answered `Pending` in the same not-ready period,
+then a handshake ends and re-opens the gate: `b` — the task that asked last — is woken, `a` is not. -/
+theorem last_poller_is_woken (cap tmo : Nat) (ops : List Op) (a b k d : Nat) (hab : a ≠ b) :
+    let s := (Svc.init cap tmo).run ops
+    let s2 := ((s.pollReadyW a).1.pollReadyW b).1
+    (s.pollReadyW a).2 = false → s.futs k = .alive d → (s2.endK k).inProgress < cap →
+      (s2.endK k).wokenW b = true ∧ (s2.endK k).wokenW a = false := by
+  intro s s2 hpa hk hlt
+  have hrun : s2 = (Svc.init cap tmo).run (ops ++ [.readyW a, .readyW b]) := by
+    simp [s2, s, Svc.run, List.foldl_append, Svc.step]
+  have hpa' : ¬ s.count < s.cap := by
+    simpa [Svc.pollReadyW, ucAvail_fst] using hpa
+  have hreg : s2.registered = true := by
+    simp [s2, Svc.pollReadyW, ucAvail_snd, hpa']
+  have hregW : s2.regW = b := by
+    simp [s2, Svc.pollReadyW, ucAvail_fst, hpa']
+  have hk2 : s2.futs k = .alive d := by simpa [s2, Svc.pollReadyW] using hk
+  have hwa : s2.wokenW a = false := by
+    simp [s2, Svc.pollReadyW, upd_other _ _ _ _ hab]
+  have h := (gate_wakes_latest cap tmo (ops ++ [.readyW a, .readyW b])).2.2 k d
+  rw [← hrun] at h
+  obtain ⟨h1, h2⟩ := h hreg hk2 hlt
+  rw [hregW] at h1 h2
+  exact ⟨h1, by rw [h2 a hab]; exact hwa⟩
 
 /-- under the contract a parked service task is woken by the **first** handshake that ends -/
 theorem gate_wakes_first (cap tmo : Nat) (ops : List Op) (hr : (Svc.init cap tmo).Respects ops) :
@@ -273,11 +328,13 @@ theorem cloned_service_deadline (s : Svc) (a : Acceptor) (t n now : Nat) (times 
 compile: rustls 0.20–0.22, native-tls) has the shape the `Acceptor` model is written from — `new` starts
 from the default, `set_handshake_timeout` assigns, the hand-written `Clone` copies the timeout,
 `new_service` hands the factory's timeout and a clone of the thread's `MAX_CONN_COUNTER` handle to the
-service, whose `poll_ready` / `call` gate on that counter and arm that timeout.  Regenerated from the
+service, whose `poll_ready` / `call` gate on that counter and arm that timeout; `LocalWaker::register`
+replaces the stored waker.  Regenerated from the
 source text by every check run (`tools/spans/tls.py`). -/
 theorem source_shape :
     (Src.tlsAcceptShapeRustls020 ++ Src.tlsAcceptShapeRustls021 ++ Src.tlsAcceptShapeRustls022 ++
-      Src.tlsAcceptShapeRustls023 ++ Src.tlsAcceptShapeOpenssl ++ Src.tlsAcceptShapeNativeTls).all (·.2) = true ∧
+      Src.tlsAcceptShapeRustls023 ++ Src.tlsAcceptShapeOpenssl ++ Src.tlsAcceptShapeNativeTls ++
+      Src.localWakerShape).all (·.2) = true ∧
     (Src.tlsAcceptShapeOpenssl.map (·.1)).contains "clone_copies_timeout" = true := by decide
 
 /-! ### The defaults (T1: regenerated from accept/mod.rs) -/
@@ -309,6 +366,10 @@ example : (Svc.init 2 100).Respects [.ready, .call 0, .ready, .callT 700 3, .rea
 /-- configure 200 ms, clone for a worker, re-configure the original: the worker's service keeps 200 ms -/
 example : ((Cfg.run {} [.new, .set 0 200, .clone 0, .set 0 900, .svc 1, .svc 0, .new, .svc 2]).svcs) = [200, 900, 3000] := by decide
 example : drive (40 + 200) (fun _ => .pending) [40, 100, 240, 3040] = some (.timeout, 240) := by decide
+/-- tasks 1 and 2 are both answered `Pending` at the limit; the handshake that ends wakes task 2 only -/
+example : ((Svc.init 1 100).run [.readyW 1, .call 0, .readyW 1, .readyW 2, .drop 0]).wokenW 2 = true ∧
+    ((Svc.init 1 100).run [.readyW 1, .call 0, .readyW 1, .readyW 2, .drop 0]).wokenW 1 = false ∧
+    ((Svc.init 1 100).run [.readyW 1, .call 0, .readyW 1, .readyW 2]).regW = 2 := by decide
 /-- a contract-violating history (three calls with max 2): `gate_general`, `guard_lifetime` still apply -/
 example : ((Svc.init 2 100).run [.call 0, .call 0, .call 0, .ready]).inProgress = 3 := by decide
 
